@@ -91,7 +91,8 @@ def cell_values():
     return st.one_of(
         st.none(), st.booleans(), st.integers(-3, 3), st.integers(-2 ** 70, 2 ** 70),
         st.sampled_from([0.0, 1.0, 2.5, -1.5, float('inf'), float('-inf')]),
-        st.sampled_from([Decimal(1), Decimal('2.5'), Decimal(-2)]),
+        st.sampled_from([Decimal(1), Decimal('2.5'), Decimal(-2), Decimal('0.1'), Decimal(2 ** 53 + 1)]),
+        st.sampled_from([0.1, float(2 ** 53)]),
         st.sampled_from([b'', b'a', b'B']), st.sampled_from([u'', u'a', u'B', u'\xe9']),
         st.sampled_from([dt.date(2020, 1, 1), dt.date(1999, 12, 31)]),
         st.sampled_from([dt.datetime(2020, 1, 1), dt.datetime(2020, 1, 1, 12)]),
